@@ -367,6 +367,33 @@ var pureItems = []pureItem{
 			"n, err = st.Conn.Writer.Write(chunk)":            {"let out := out ++ [Go.Out.bytes chunk];\nlet n : Int := (chunk.length : Int);", []string{"out", "n"}, nil},
 			"if err := st.Conn.WriteInt32(0)":                 {"let out := out ++ [Go.Out.i32 0];", []string{"out"}, nil}},
 		results: []string{"out", "rest"}},
+	// receiver/generator.go generateAndSendSums: the basis file is read block by block (a byte list that is consumed),
+	// every block's weak sum and strong sum go out; the strong hash is a parameter
+	{name: "genSums", file: "internal/receiver/generator.go", fn: "generateAndSendSums",
+		from: "buf := make([]byte, int(sh.BlockLength))", to: "for i := int32(0); i < sh.ChecksumCount; i++",
+		params: []pvar{{"fileLen", "int64"}, {"blockLength", "int32"}, {"checksumCount", "int32"}, {"inp", "[]byte"}, {"out", "[]out"}, {"H", "hashfn"}},
+		fuel:   []string{"checksumCount.toInt.toNat"},
+		abstract: map[string]abstr{"sh.BlockLength": {"blockLength", "int32"}, "sh.ChecksumCount": {"checksumCount", "int32"},
+			"rsyncchecksum.Checksum2(rt.Seed, b)": {"(H b)", "[]byte"}},
+		replace: map[string]repl{
+			"if _, err := io.ReadFull(in, b)":               {"Go.bind (Go.readFull inp (b.length : Int)) fun (b, inp) =>", []string{"b", "inp"}, nil},
+			"if err := rt.Conn.WriteInt32(int32(sum1))":     {"let out := out ++ [Go.Out.i32 sum1.toInt32];", []string{"out"}, nil},
+			"if _, err := rt.Conn.Writer.Write(sum2)":       {"let out := out ++ [Go.Out.bytes sum2];", []string{"out"}, nil}},
+		results: []string{"out", "inp"}},
+	// sender.go receiveSums: the block list as the sender reads it (index, offset, length, weak sum, strong-sum prefix)
+	{name: "recvSums", file: "internal/sender/sender.go", fn: "receiveSums",
+		from: "var offset int64", to: "for i := int32(0); i < head.ChecksumCount; i++",
+		params: []pvar{{"checksumCount", "int32"}, {"blockLength", "int32"}, {"remainderLength", "int32"}, {"checksumLength", "int32"}, {"inp", "[]byte"}, {"sums", "[]sum"}, {"sbLen", "int64"}},
+		fuel:   []string{"checksumCount.toInt.toNat"},
+		abstract: map[string]abstr{"head.ChecksumCount": {"checksumCount", "int32"}, "head.BlockLength": {"blockLength", "int32"},
+			"head.RemainderLength": {"remainderLength", "int32"}, "sb.Len": {"sbLen", "int64"}},
+		drop: []string{"head.Sums = make(", "_ = n"},
+		replace: map[string]repl{
+			"shortChecksum, err := st.Conn.ReadInt32()": {"Go.bind (Go.readI32 inp) fun (shortChecksum, inp) =>", []string{"inp"}, []pvar{{"shortChecksum", "int32"}}},
+			"sb := rsync.SumBuf{":                       {"let sbOffset : Int := offset;", nil, []pvar{{"sbOffset", "int64"}}},
+			"n, err := io.ReadFull(st.Conn.Reader, sb.Sum2[:head.ChecksumLength])": {"Go.bind (Go.readFull inp checksumLength.toInt) fun (sum2, inp) =>", []string{"inp"}, []pvar{{"sum2", "[]byte"}}},
+			"head.Sums[i] = sb": {"let sums := sums ++ [Go.SumRec.mk i sbOffset sbLen shortChecksum.toUInt32 sum2];", []string{"sums"}, nil}},
+		results: []string{"sums", "inp"}},
 	// wire: multiplex frame header, and its decoding
 	{name: "muxHeader", file: "internal/rsyncwire/wire.go", fn: "WriteMsg",
 		from: "header := uint32(mplexBase+tag)<<24 | uint32(len(p))", to: "header := uint32(mplexBase+tag)<<24 | uint32(len(p))",
@@ -415,7 +442,7 @@ func pureIdent(s string) string {
 var leanTypes = map[string]string{
 	"uint8": "UInt8", "byte": "UInt8", "uint16": "UInt16", "uint32": "UInt32", "uint64": "UInt64",
 	"int8": "Int8", "int16": "Int16", "int32": "Int32", "int": "Int", "int64": "Int",
-	"bool": "Bool", "[]byte": "List UInt8", "[]out": "List Go.Out", "[]file": "List Go.FileRec", "[]int": "List Nat",
+	"bool": "Bool", "[]byte": "List UInt8", "[]out": "List Go.Out", "[]file": "List Go.FileRec", "[]int": "List Nat", "hashfn": "(List UInt8 → List UInt8)", "[]sum": "List Go.SumRec",
 }
 
 func isFixed(t string) bool {
